@@ -7,7 +7,11 @@ Two monitors, both fed from sandboxed workers (observation there, verdict here):
     (file_size, compress_size, is_dir) vectors x limit settings, each vector realised (a) as ZipInfo objects
     behind a stub that only has ``infolist()`` and (b) as a real ZIP whose central directory claims those sizes,
     pushed through ``validate_zip_bytesio`` (from several stream positions, which must be restored) and
-    ``open_zipfile``.  Where the statement is silent (do directory entries count as entries? do the compressed
+    ``open_zipfile``.  The advisory words of a central record (external attributes: MS-DOS directory / read-only /
+    archive bits, Unix mode in the high word; creating system) are varied on top of every vector: whether an entry is a
+    directory is a matter of its name (trailing "/": the ZIP format, ``ZipInfo.is_dir`` and therefore what
+    ``ZipFile.read`` will decompress), so a *file* entry carrying a directory attribute still counts in every clause;
+    each such vector has a control twin with default attributes.  Where the statement is silent (do directory entries count as entries? do the compressed
     bytes of empty entries count in the total ratio? - they do, see ref_decide) every reading is admissible and nothing is demanded.
 
 (2) zip-order monitor (vlib/mon/ziporder.py).  The 10 ZIP-container entry points run on repository fixtures and
@@ -41,6 +45,25 @@ EXTRACTORS = {
     "odf-encryption-probe": (_X + "util.encryption", "is_odf_encrypted", (".odt", ".odp", ".ods", ".odg", ".odf")),
 }
 CLAUSES = ("n", "single", "total", "eratio", "tratio")
+# (label, create_system, external_attr) written on *file* entries (name without trailing "/") / on directory entries
+FILE_ATTRS = [("default", 0, 0), ("dos-directory-bit", 0, 0x10), ("dos-directory+readonly+archive-bits", 0, 0x31), ("unix-S_IFDIR-mode", 3, 0o040755 << 16),
+              ("unix-S_IFDIR-mode+dos-directory-bit", 3, 0o040755 << 16 | 0x10), ("unix-regular-mode", 3, 0o100644 << 16), ("unix-symlink-mode", 3, 0o120777 << 16),
+              ("all-attribute-bits", 0, 0xFFFFFFFF), ("ntfs-directory-bit", 10, 0x10), ("dos-archive-bit", 0, 0x20)]
+DIR_ATTRS = [("default", 0, 0x10), ("no-attribute", 0, 0), ("unix-S_IFDIR-mode", 3, 0o040755 << 16 | 0x10)]
+ATTR_BY_LABEL = {a[0]: a for a in FILE_ATTRS}
+
+
+def attr_plan(amode):
+    """amode (int | None) -> (file-attribute triple, scope 'all' | 'largest', directory-attribute triple).  Every second vector keeps the defaults."""
+    if amode is None or amode % 2 == 0:
+        return FILE_ATTRS[0], "all", DIR_ATTRS[0 if amode is None else (amode // 2) % len(DIR_ATTRS)]
+    k = amode // 2
+    return FILE_ATTRS[1 + k % (len(FILE_ATTRS) - 1)], ("all", "largest")[(k // (len(FILE_ATTRS) - 1)) % 2], DIR_ATTRS[k % len(DIR_ATTRS)]
+
+
+def attr_feature(label):
+    a = ATTR_BY_LABEL[label][2]
+    return "file-entry-carries-directory-attribute" if (a & 0x10 or (a >> 16) & 0o170000 == 0o040000) else "file-entry-carries-nondefault-attributes"
 
 
 # =========================================================================================== reference predicate
@@ -317,23 +340,44 @@ def _work_lattice(case):
                               max_total_compression_ratio=RT, max_entry_compression_ratio=RE)
     res = []
     for vi, runs in enumerate(case["vectors"]):
-        infos, ents = [], []
+        infos, ents, plain = [], [], []
         i = 0
+        amode = None if case.get("amode") is None else case["amode"] + vi
+        (alabel, asys, aattr), scope, (_, dsys, dattr) = attr_plan(amode)
+        fmax = max((f for f, _, d, _ in runs if not d), default=0)
         for f, c, d, k in runs:
             zi = zipfile.ZipInfo(f"m{i}/" if d else f"m{i}")
             zi.file_size, zi.compress_size = f, c
+            zp = zi
+            if d:
+                sy, at = dsys, dattr
+            elif scope == "all" or f == fmax:
+                sy, at = asys, aattr
+            else:
+                sy, at = FILE_ATTRS[0][1:]
+            if amode is not None:
+                zi.create_system, zi.external_attr = sy, at
+                if alabel != "default" and not d:
+                    zp = zipfile.ZipInfo(zi.filename)       # control twin: the same entry with default attributes
+                    zp.file_size, zp.compress_size = f, c
+                    zp.create_system, zp.external_attr = FILE_ATTRS[0][1:]
             infos.extend([zi] * k)                    # the stub may repeat one object; the real ZIP gets unique names
+            plain.extend([zp] * k)
             if case.get("real", True):
                 for j in range(k):
-                    ents.append(F.Entry(f"m{i + j}/" if d else f"m{i + j}", cd_file_size=f, cd_compress_size=c))
+                    ents.append(F.Entry(f"m{i + j}/" if d else f"m{i + j}", cd_file_size=f, cd_compress_size=c,
+                                        ext_attr=None if amode is None else at, create_system=0 if amode is None else sy))
             i += k
         stub = _outcome(lambda: zb.validate_zipfile(_Stub(infos), limits=limits, source="c11"))
         twin = None                                   # control twin: the same vector without its directory entries
         if any(d for _, _, d, _ in runs):
             files_only = [z for z in infos if not z.filename.endswith("/")]
             twin = _outcome(lambda: zb.validate_zipfile(_Stub(files_only), limits=limits, source="c11"))
+        atwin = None                                  # control twin: the same vector, file entries with default attributes
+        if alabel != "default":
+            atwin = _outcome(lambda: zb.validate_zipfile(_Stub(plain), limits=limits, source="c11"))
         if not case.get("real", True):
-            res.append([stub, None, None, 0, 0, twin])
+            res.append([stub, None, None, 0, 0, twin, atwin, alabel])
             continue
         data = F.raw_zip(ents)
         bio = io.BytesIO(data)
@@ -343,7 +387,7 @@ def _work_lattice(case):
         real = _outcome(lambda: zb.validate_zip_bytesio(bio, limits=limits, source="c11"))
         p1 = bio.tell()
         opened = _outcome(lambda: zb.open_zipfile(io.BytesIO(data), limits=limits, source="c11"))
-        res.append([stub, real, opened, p0, p1, twin])
+        res.append([stub, real, opened, p0, p1, twin, atwin, alabel])
     return {"res": res}
 
 
@@ -374,9 +418,12 @@ def build_variant(base: bytes, v: dict, lim):
     files = [(i.file_size, i.compress_size) for i in infos if not i.is_dir()]
     U0, C0 = sum(f for f, _ in files), sum(c for _, c in files)
     P = "zz_c11/"
-    forged = lambda nm, f, c: F.stored(P + nm, b"x", cd_file_size=f, cd_compress_size=c)  # noqa: E731
+    # "attr": the forged / added *file* members carry these external attributes (label of FILE_ATTRS); they stay files by name
+    _, asys, aattr = ATTR_BY_LABEL[v.get("attr", "default")]
+    akw = {"ext_attr": aattr, "create_system": asys} if v.get("attr") else {}
+    forged = lambda nm, f, c: F.stored(P + nm, b"x", cd_file_size=f, cd_compress_size=c, **akw)  # noqa: E731
     if name == "pad":
-        extra = [F.stored(P + "pad.bin", b"x" * 10)]
+        extra = [F.stored(P + "pad.bin", b"x" * 10, **akw)]
     elif name == "dir-wild":
         extra = [F.Entry(P + "d1/", cd_file_size=S + 1, cd_compress_size=0),
                  F.Entry(P + "d2/", cd_file_size=T + 1 + d, cd_compress_size=1)]
@@ -406,11 +453,11 @@ def build_variant(base: bytes, v: dict, lim):
     elif name == "zero":
         extra = [forged("z.bin", 10 + d, 0)]
     elif name == "real-entry-ratio":   # nothing forged: 4 MiB of zeros really deflate ~1000:1
-        extra = [F.deflated(P + "zeros.bin", b"\0" * (4 << 20))]
+        extra = [F.deflated(P + "zeros.bin", b"\0" * (4 << 20), **akw)]
     elif name == "real-total-ratio":   # every member below the entry limit, the sum above the total limit
         import random
         noise = random.Random(7).randbytes(1600)
-        extra = [F.deflated(P + f"z{i}.bin", b"\0" * (1 << 20) + noise) for i in range(24)]
+        extra = [F.deflated(P + f"z{i}.bin", b"\0" * (1 << 20) + noise, **akw) for i in range(24)]
     else:
         raise ValueError(name)
     return F.append_entries(base, extra, front=front)
@@ -456,7 +503,7 @@ def _work_extract(case):
 _PENDING: list = []
 
 
-def _violating(run, ref, got, component, entries, lim, replay, twin=None):
+def _violating(run, ref, got, component, entries, lim, replay, twin=None, atwin=None, alabel="default"):
     """Queue a decision mismatch; ``flush_pending`` names the mechanism once all of them are known."""
     m = margins(entries, lim)
     zero = any((not d) and f > 0 and c == 0 for f, c, d in entries)
@@ -475,7 +522,9 @@ def _violating(run, ref, got, component, entries, lim, replay, twin=None):
         tref = ref_decide([e for e in entries if not e[2]], lim)
         if tref == ref and twin == ("reject" if tref == {True} else "accept"):
             feats = frozenset(["directory-entries"])     # the twin without directory entries is decided correctly
-    what = (f"limits (entries,total,single,total-ratio,entry-ratio)={lim} entries(f,c,dir,count)={compress_runs(entries)[:12]} "
+    if alabel != "default" and atwin == ("reject" if ref == {True} else "accept"):
+        feats = frozenset(["attr:" + attr_feature(alabel)])     # the twin with default attributes on its file entries is decided correctly
+    what = (f"file entries carry {alabel} attributes; " if alabel != "default" else "") + (f"limits (entries,total,single,total-ratio,entry-ratio)={lim} entries(f,c,dir,count)={compress_runs(entries)[:12]} "
             f"margins={m}: spec says {'reject' if ref == {True} else 'accept'}, {component} -> {got}")
     _PENDING.append((component, kind, sym, feats, dirs, len(entries), what, replay))
     return True
@@ -491,6 +540,7 @@ def flush_pending(run):
     for (component, kind, sym), items in sorted(groups.items()):
         prefix = "exceeds-" if kind == "wrong-accept" else "on-limit-"
         named = {"directory-entries": "directory-entries-present"}
+        named.update({"attr:" + attr_feature(a[0]): attr_feature(a[0]) for a in FILE_ATTRS[1:]})
         left = items
         while left:
             tally: dict = {}
@@ -517,15 +567,21 @@ def eval_lattice(run, case, obs, cells):
         run.count("lattice_chunks_lost")
         return
     lim = case["lim"]
-    for vi, (runs, (stub, real, opened, p0, p1, twin)) in enumerate(zip(case["vectors"], obs["res"])):
+    for vi, (runs, one) in enumerate(zip(case["vectors"], obs["res"])):
+        stub, real, opened, p0, p1, twin = one[:6]
+        atwin, alabel = (one[6], one[7]) if len(one) > 7 else (None, "default")
         entries = expand(runs)
         ref = ref_decide(entries, lim)
-        rep = {"kind": "lattice", "lim": lim, "vectors": [runs], "base": case["base"] + vi}
+        rep = {"kind": "lattice", "lim": lim, "vectors": [runs], "base": case["base"] + vi, "amode": None if case.get("amode") is None else case["amode"] + vi}
         for comp, got in (("validate_zipfile[ZipInfo-stub]", stub), ("validate_zip_bytesio[forged-zip]", real), ("open_zipfile[forged-zip]", opened)):
             if got is None:
                 continue
-            _violating(run, ref, got, comp, entries, lim, rep, twin)
+            _violating(run, ref, got, comp, entries, lim, rep, twin, atwin, alabel)
             run.count("decisions_compared" if len(ref) == 1 else "decisions_unconstrained_by_statement")
+            if alabel != "default" and len(ref) == 1 and any(not d for _, _, d in entries):
+                run.count("decisions_compared_with_nondefault_file_attributes")
+                if ref == {True} and attr_feature(alabel) == "file-entry-carries-directory-attribute":
+                    run.count("spec_rejects_although_file_entries_carry_a_directory_attribute")
         if real is None:
             run.count("stub_only_vectors")
         elif p1 != p0:
@@ -544,7 +600,7 @@ def eval_lattice(run, case, obs, cells):
                 cells.add((a, m[a]))
         zero = any((not d) and f > 0 and c == 0 for f, c, d in entries)
         dirs = any(d for _, _, d in entries)
-        sig = ("lattice", case["world"], tuple(m[k] for k in CLAUSES), zero, dirs, stub, real)
+        sig = ("lattice", case["world"], tuple(m[k] for k in CLAUSES), zero, dirs, stub, real, alabel)
         run.case(sig, sample={"limits": lim, "entries_f_c_dir_count": runs[:6], "spec_rejects": sorted(ref), "stub": stub,
                               "forged_zip": real, "pos": [p0, p1]} if (run.evaluations % 4001 == 17) else None)
         run.count("spec_reject" if ref == {True} else "spec_accept" if ref == {False} else "spec_either")
@@ -564,8 +620,8 @@ def eval_extract(run, case, obs, per):
     entries = expand(obs["vector"])
     lim = obs["lim"]
     ref = ref_decide(entries, lim)
-    benign = v["name"] in ("plain", "pad")
-    feature = "clean" if benign else ("bomb-shape-" if ref == {True} else "near-limit-") + v["name"]
+    benign = v["name"] in ("plain", "pad") and not v.get("attr")
+    feature = "clean" if benign else ("bomb-shape-" if ref == {True} else "near-limit-") + v["name"] + ("+" + attr_feature(v["attr"]) if v.get("attr") else "")
     shape = "clean" if benign else "bomb-shaped-input" if ref == {True} else "near-limit-input"
     events = obs["events"]
     for sym, why, idx in ziporder.check(events):
@@ -585,6 +641,8 @@ def eval_extract(run, case, obs, per):
     if ref == {True}:
         if out == "bomb":
             st["bombs_rejected"] += 1
+            if v.get("attr") and attr_feature(v["attr"]) == "file-entry-carries-directory-attribute":
+                st["bombs_rejected_although_member_carries_directory_attribute"] = st.get("bombs_rejected_although_member_carries_directory_attribute", 0) + 1
         else:
             run.violation(f"C11:{ext}:{feature}:not-rejected-as-zip-bomb",
                           f"{case.get('fixture')} variant={v}: central directory exceeds the configured limits {lim} (margins {margins(entries, lim)}) but the extractor ended with {out}: {obs['detail']}", rep)
@@ -604,7 +662,7 @@ def eval_extract(run, case, obs, per):
     run.extras.setdefault("rebound_bindings", obs["rebound"])
     run.extras.setdefault("configured_default_limits", lim)
     m = margins(entries, lim)
-    sig = ("extract", ext, v["name"], v.get("d", 0), bool(v.get("front")), out if not out.startswith("exc:") else "exc",
+    sig = ("extract", ext, v["name"], v.get("attr", "default"), v.get("d", 0), bool(v.get("front")), out if not out.startswith("exc:") else "exc",
            s["zips_seen"], s["zips_read"] > 0, tuple(sorted(ref)))
     run.case(sig, sample={"extractor": ext, "fixture": case.get("fixture"), "variant": v, "spec_rejects": sorted(ref), "outcome": out,
                           "zip_objects": s, "margins": m} if (v["name"] in ("eratio", "plain") and st["runs"] < 3 and ext in ("xlsx", "odt")) else None)
@@ -620,7 +678,7 @@ def lattice_cases(run):
         vectors = list(vectors)
         for i in range(0, len(vectors), chunk):
             cases.append({"kind": "lattice", "id": cid[0], "world": world, "lim": list(lim), "vectors": vectors[i:i + chunk],
-                          "base": rng.randrange(6), "real": real})
+                          "base": rng.randrange(6), "real": real, "amode": rng.randrange(2 * 2 * (len(FILE_ATTRS) - 1))})
             cid[0] += 1
 
     for wi, lim in enumerate(SMALL_WORLDS):
@@ -647,7 +705,12 @@ VARIANTS_QUICK = [
     {"name": "tratio", "d": 0}, {"name": "tratio", "d": 1, "front": 1}, {"name": "tratio", "d": -1},
     {"name": "zero", "front": 1}, {"name": "zero"},
     {"name": "real-entry-ratio"}, {"name": "real-total-ratio", "front": 1},
+    # the member that pushes the container over a limit is a file (by name) that carries directory / other advisory attributes
+    {"name": "single", "d": 1, "attr": "dos-directory-bit"}, {"name": "zero", "front": 1, "attr": "unix-S_IFDIR-mode"},
+    {"name": "real-entry-ratio", "attr": "dos-directory+readonly+archive-bits"}, {"name": "pad", "attr": "dos-directory-bit"},
 ]
+VARIANTS_ATTR = [{"name": nm, "d": 1, "attr": a[0]} for nm in ("single", "total", "eratio", "tratio", "zero") for a in FILE_ATTRS[1:]] + \
+                [{"name": nm, "attr": a[0]} for nm in ("real-entry-ratio", "real-total-ratio", "pad") for a in FILE_ATTRS[1:]]
 VARIANTS_ENTRIES = [{"name": "entries-all", "d": 0}, {"name": "entries-files", "d": 1}, {"name": "entries-all", "d": 1, "front": 1}]
 
 
@@ -678,6 +741,7 @@ def extract_cases(run):
                 for nm in ("single", "total", "eratio", "tratio", "zero"):
                     vs.append({"name": nm, "d": rng.randrange(2, 10 ** 6), "front": rng.randrange(2)})
                     vs.append({"name": nm, "d": -1, "front": rng.randrange(2)})
+                vs += [dict(v, front=rng.randrange(2)) for v in VARIANTS_ATTR]
             for v in vs:
                 cases.append({"kind": "extract", "ext": ext, "fixture": fxt, "variant": v})
         for fxt in heavy:
@@ -730,12 +794,15 @@ def main(run):
     run.require("pairwise_boundary_cells_reached", len(pair_cells), 80)
     run.require("single_boundary_cells_reached", len({c for c in cells if len(c) == 2}), 15)
     run.require("decisions_compared", run.counters.get("decisions_compared", 0), run.n(20000, 150000))
+    for k, lo in (("decisions_compared_with_nondefault_file_attributes", run.n(8000, 60000)), ("spec_rejects_although_file_entries_carry_a_directory_attribute", run.n(1500, 10000))):
+        run.require(k, run.counters.get(k, 0), lo)
     for k in ("accept_from_zero", "accept_from_nonzero", "reject_from_zero", "reject_from_nonzero", "error_from_nonzero"):
         run.require("position_checked_on_" + k, run.counters.get("position_checked_on_" + k, 0), 4)
     for ext in EXTRACTORS:
         st = per.get(ext, {})
         run.require(f"{ext}:read_after_validation", st.get("read_after_validation", 0), 1)
         run.require(f"{ext}:bombs_rejected", st.get("bombs_rejected", 0), 1)
+        run.require(f"{ext}:bombs_rejected_although_member_carries_directory_attribute", st.get("bombs_rejected_although_member_carries_directory_attribute", 0), 1)
     for h in ("ZipFile.__init__", "ZipFile.read", "ZipFile.open", "validate_zipfile", "validate_zip_bytesio", "open_zipfile"):
         run.require("hook_hits_" + h, run.counters.get("hook_hits_" + h, 0), 10)
     rb = run.extras.get("rebound_bindings", {})
